@@ -50,6 +50,10 @@ let handle (line : string) : string =
       (match root_of tbl root with
        | None -> "NOROOT"
        | Some r -> string_of_cl (run_obj tbl r (bytes_of_hex hex)))
+  | ["attr"; tb; name; v] ->
+      (match find_prim (prims_of tb) name with
+       | None -> "NOPRIM"
+       | Some p -> string_of_cl (run_attr p (z_of_string v)))
   | ["int"; tb; name; v] ->
       (match find_prim (prims_of tb) name with
        | None -> "NOPRIM"
